@@ -1,5 +1,6 @@
 import Ptn.C07.Core
 import Ptn.C06.Props
+import Ptn.C07.Gauge
 import Ptn.Common.AnalysisExp
 /-! Property theorems for C07, part 2 (Mathlib); the combinatorial theorems are in `Core.lean`. -/
 namespace Ptn.C07
@@ -54,5 +55,80 @@ example : Ptn.C06.Demo.kids.Canon Ptn.C06.Demo.dim ∧ Ptn.C06.Demo.kids.labels.
       (Idx Ptn.C06.Demo.dim Ptn.C06.Demo.kids.physAll × (Fin 2 × Fin 3)) ℂ)).conjTranspose = 1 :=
   ⟨Ptn.C06.Demo.kids_canon, Ptn.C06.Demo.kids_nodup, Ptn.C06.Demo.kids_isConj, Ptn.C06.Demo.pr_inj,
     Ptn.C06.Demo.dim_pr, Matrix.conjTranspose_one⟩
+
+/-! ### The state two-site TDVP holds at every local update is canonical at the updated pair (builder B32) -/
+
+section gauge
+open Ptn.C17 Ptn.C17.RTree Ptn.C05.Disc Ptn.C06.Gauge
+
+/-- **Two-site TDVP: at every two-site update the record is canonical at the updated pair, the SVD split leaves the
+first node pointing to the second, and the backward single-site update happens at the centre.**  Every well-formed
+tree with at least two nodes, the events of a whole time step (`eventsTwoSite`: forward sweep, backward sweep),
+started canonical at the first node `s` of the sweep:
+* before `two a b` the machine's centre is `a`, `a` and `b` are neighbours, the record is canonical at `a`; while the
+  merged tensor is evolved it is canonical at the pair (no record at `a`, `b`; every other node points to its first
+  hop toward `a`, which is its first hop toward `b`); after the split `a` points to `b`, `b` has no record, all other
+  records are kept and the record is canonical at `b`;
+* before the backward update `site v` the centre is `v` and the record is canonical at `v`;
+* every QR of a centre move splits the current centre toward a neighbour;
+* after the step the record is canonical at `s` again. -/
+theorem two_site_update_canonical (t : RTree) (hwf : t.WF) (hk : t.kids ≠ []) :
+    ∃ u s evs, updatePath t = some u ∧ u.head? = some s ∧ eventsTwoSite t = some evs ∧
+      ∀ dir : Rec, CanonAt t dir s →
+        (∀ p a b q, evs = p ++ .two a b :: q →
+          (grun ⟨s, dir⟩ p).centre = a ∧ Adj t a b ∧ CanonAt t (grun ⟨s, dir⟩ p).dir a ∧
+          CanonPair t (during (grun ⟨s, dir⟩ p).dir (.two a b)) a b ∧
+          (grun ⟨s, dir⟩ (p ++ [.two a b])).dir a = some b ∧
+          (grun ⟨s, dir⟩ (p ++ [.two a b])).dir b = none ∧
+          (∀ x, x ≠ a → x ≠ b → (grun ⟨s, dir⟩ (p ++ [.two a b])).dir x = (grun ⟨s, dir⟩ p).dir x) ∧
+          CanonAt t (grun ⟨s, dir⟩ (p ++ [.two a b])).dir b) ∧
+        (∀ p v q, evs = p ++ .site v :: q →
+          (grun ⟨s, dir⟩ p).centre = v ∧ CanonAt t (grun ⟨s, dir⟩ p).dir v) ∧
+        (∀ p a b q, evs = p ++ .move a b :: q →
+          (grun ⟨s, dir⟩ p).centre = a ∧ Adj t a b ∧ CanonAt t (grun ⟨s, dir⟩ p).dir a) ∧
+        CanonAt t (grun ⟨s, dir⟩ evs).dir s ∧ (grun ⟨s, dir⟩ evs).centre = s := by
+  obtain ⟨u, s, evs, hu, hs, hev, h⟩ := Ptn.C06.tdvp_site_update_canonical t hwf .twoSite hk
+  refine ⟨u, s, evs, hu, hs, hev, ?_⟩
+  intro dir hc
+  obtain ⟨hsite, _, htwo, hmove, hfin, hcen⟩ := h dir hc
+  refine ⟨?_, hsite, fun p a b q e => hmove p a b q (Or.inl e), hfin, hcen⟩
+  intro p a b q e
+  obtain ⟨h1, h2, h3, h4⟩ := htwo p a b q e
+  obtain ⟨_, a1, a2, a3, a4⟩ := after_two_split hwf h2 h3
+  have hg : grun ⟨s, dir⟩ (p ++ [.two a b]) = gstep (grun ⟨s, dir⟩ p) (.two a b) := by
+    rw [grun_append]; rfl
+  rw [hg]
+  exact ⟨h1, h2, h3, h4, a1, a2, a3, a4⟩
+
+/-- **The STATE is canonical at the pair at every two-site update**, with the SVD contract as an explicit
+hypothesis: instance of `Ptn.C06.tdvp_site_update_isometric` (tensors `α`, `iso A m` = "`A` is an isometry toward
+`m`", `TRun`: every event may replace the tensors it writes subject only to "the factor left at `a` is an isometry
+toward `b`") for the two-site scheme, over any number `k` of steps: before `two a b` every tensor other than those
+of `a` and `b` is an isometry toward the first node on its way to `a`, which is the first node on its way to `b`. -/
+theorem two_site_update_isometric {α : Type} (iso : α → Nat → Prop) (t : RTree) (hwf : t.WF)
+    (hk : t.kids ≠ []) :
+    ∃ u s evs, updatePath t = some u ∧ u.head? = some s ∧ eventsTwoSite t = some evs ∧
+      ∀ (dir : Rec) (T0 : Nat → α), CanonAt t dir s → Sound iso dir T0 →
+      ∀ (k : Nat) (p q : List DEv) (a b : Nat) (T : Nat → α),
+        (List.replicate k evs).flatten = p ++ .two a b :: q → TRun iso T0 p T →
+        (grun ⟨s, dir⟩ p).centre = a ∧ Adj t a b ∧ IsoCanonPair iso t T a b := by
+  obtain ⟨u, s, evs, hu, hs, hev, h⟩ := Ptn.C06.tdvp_site_update_isometric iso t hwf .twoSite hk
+  refine ⟨u, s, evs, hu, hs, hev, ?_⟩
+  intro dir T0 hc hsd k p q a b T hsplit hr
+  obtain ⟨hp, _, _, hpair⟩ := h dir T0 hc hsd k p q _ T hsplit hr
+  obtain ⟨hca, hab⟩ := gpre_pair (Or.inr (Or.inr (Or.inl rfl))) hp
+  exact ⟨hca, hab, hpair a b rfl⟩
+
+/-- non-vacuity: the 8-node tree of the C17 examples; the record after `canonical_form(7)`; the machine's own check
+of every event of a two-site step; the first two-site update 7 -> 6 leaves 7 pointing to 6 -/
+example : exTree.WF ∧ exTree.kids ≠ [] := by decide
+example : ((canonRec exTree 7).bind fun r => (eventsTwoSite exTree).map fun evs =>
+    canonAtB exTree r.2 7 && allGoodB exTree ⟨7, r.2⟩ evs && canonAtB exTree (grun ⟨7, r.2⟩ evs).dir 7 &&
+      ((grun ⟨7, r.2⟩ (evs.take 1)).dir 7 == some 6) && ((grun ⟨7, r.2⟩ (evs.take 1)).dir 6 == none))
+    = some true := by decide
+example : (eventsTwoSite exTree).map (fun evs => (opsOf evs).take 4) =
+    some [⟨.svd, 7, 6⟩, ⟨.svd, 6, 5⟩, ⟨.svd, 5, 0⟩, ⟨.qr, 0, 2⟩] := by decide
+
+end gauge
 
 end Ptn.C07
